@@ -103,12 +103,10 @@ def cliFileOf (j : Json) : Except String CliFile := do
   pure ⟨← ofCps (j.getObjValD "path"), ← ofCps (j.getObjValD "basename"),
         ← ofCps (j.getObjValD "abspath"), outcome⟩
 
-partial def nodeOf (j : Json) : Except String Node := do
-  let f := j.getObjValD "f"
-  if !f.isNull then pure (Node.file (← ofCps f)) else
-  let d ← ofCps (j.getObjValD "d")
-  let cs ← (← (j.getObjValD "c").getArr?).toList.mapM nodeOf
-  pure (Node.dir d cs)
+def entryOf (j : Json) : Except String Entry := do
+  let p ← (← (j.getObjValD "p").getArr?).toList.mapM ofCps
+  let d ← (j.getObjValD "d").getBool?
+  pure ⟨p, d⟩
 
 def strList (l : List String) : Json := Json.arr (l.map cps).toArray
 
@@ -156,7 +154,7 @@ def handle (j : Json) : Except String Json := do
       | .crash => Json.mkObj [("kind", "crash")]
     pure (Json.mkObj [("printed", printed), ("exit", Json.num out.exit)])
   | "select" =>
-    let tree ← (← (j.getObjValD "tree").getArr?).toList.mapM nodeOf
+    let tree ← (← (j.getObjValD "tree").getArr?).toList.mapM entryOf
     let argv ← (← (j.getObjValD "argv").getArr?).toList.mapM (fun a => do (← a.getArr?).toList.mapM ofCps)
     let s := select tree argv
     pure (Json.mkObj [("files", strList s.files), ("msgs", strList s.msgs), ("abort", Json.bool s.abort)])
